@@ -51,7 +51,39 @@ def inline_chains(ctx, body, depth=0, seen=None):
                     out.append([(st, "select!:" + flow.short(f[2] or f[1]))])
         else:
             out.append([(st, name)])
+            # wrappers (timeout, instrument, …) take the real future as an argument: look inside
+            if isinstance(info, tuple) and info and info[0] == "call":
+                for inner in _future_args(ctx, info):
+                    if inner[0] == "ws":
+                        sub = ctx.prog.lib_bodies.get(inner[1])
+                        if sub is not None:
+                            for ch in inline_chains(ctx, sub, depth + 1, seen):
+                                out.append([(st, name.split("::")[-1] + "(async block)")] + ch)
+                    else:
+                        out.append([(st, name.split("::")[-1] + "(..)"), (st, inner[1])])
     return out
+
+
+def _future_args(ctx, callexpr, depth=0):
+    """futures handed to a combinator call: workspace coroutines (async blocks) and nested I/O calls"""
+    found = []
+    if depth > 4:
+        return found
+    for a in callexpr[3]:
+        x = flow.strip(a)
+        if x[0] == "agg" and x[1].startswith("coroutine:") and x[1].split(":", 1)[1] in ctx.prog.lib_bodies:
+            found.append(("ws", x[1].split(":", 1)[1]))
+        elif x[0] == "call":
+            nm = flow.short(x[2] or x[1])
+            from ..lib import _ws_coroutine_of
+            wk = _ws_coroutine_of(ctx, x)
+            if wk:
+                found.append(("ws", wk))
+            elif any(nm.endswith(p) for p in PEER_BLOCKING):
+                found.append(("ext", nm))
+            else:
+                found.extend(_future_args(ctx, x, depth + 1))
+    return found
 
 
 def check(ctx):
